@@ -10,9 +10,9 @@ from .common import sym_payload
 def h_rw(ex, ops, seed_key=False, client='facade', direct=1, explore=False, cli=CLI):
     """ops: list of ['read', nbytes, size, signed, raw] or ['write', nbytes, size]; run back to back on one rig"""
     rig = Rig(ex, seed_key=seed_key, client=client, explore=explore, cli=cli)
-    ptr = ex.fresh_int('ptr', 0, (1 << 32) - 1)     # the transactions of one history address the same objects
     for i, op in enumerate(ops):
         kind, nbytes, size = op[0], op[1], op[2]
+        ptr = ex.fresh_int('ptr%d' % i, 0, (1 << 32) - 1)     # every transaction has its own pointer (equal to an earlier one or not)
         count = nbytes // size
         n_proc, n_notify, n_ret = len(rig.proceed_calls), rig.notify_calls, len(rig.respond_returns)
         info = {'op': i, 'kind': kind, 'nbytes': nbytes, 'size': size, 'seed_key': seed_key, 'history': [o[:3] for o in ops[:i]]}
